@@ -173,6 +173,32 @@ CHECKS = {
              "genuine defect (unpushed release counted as satisfied) was repaired with a fix: commit.",
         design="5/C19", tech="Coq proof (contract-parametric, over Tank + Distrib models) + exact correspondence + implementation monitor",
         note=NOTE + "riverrc is evaluated with a rational surrogate of exp on both sides of the correspondence; the theorems do not depend on its value."),
+    "C14": dict(
+        text="PARTIAL proof: theorems about the parameter models of Params.v - for Surface, ImperviousSurface, PerviousSurface, "
+             "Storage, River, WTW and Arc, in EVERY state reachable by construction followed by any sequence of overrides, "
+             "constructing from the arguments Model.save writes gives the component back with all derived quantities (the "
+             "pervious soil depth is divided by the porosity on save: the version writing the attribute itself is refuted with a "
+             "witness), and a second save writes what the first wrote; a run interrupted at ANY timestep boundary and continued "
+             "from the state reached is the uninterrupted run (for any step function whose whole state is its argument). Tie: "
+             "exact correspondence through the real Model.save / config.yml / Model.load. The text layer (yaml, csv, csv.gz), "
+             "dill, date classes and all other classes are reached by the whole-model save/load/resave and pickle-at-every-"
+             "boundary monitor only. Five genuine defects were repaired with fix: commits.",
+        design="11/C14", tech="Coq proof (round-trip laws over hand-written parameter models, chunking theorem) + exact correspondence through Model.save/load + whole-model save/load and pickle/resume monitor (partial)",
+        note=NOTE),
+    "C15": dict(
+        text="PARTIAL proof: theorems about the parameter models of Params.v - for Tank, Arc, Surface, ImperviousSurface, "
+             "PerviousSurface, Storage, River, WTW and EVERY sequence of override dictionaries (any key subsets and values): the "
+             "component reached is the one constructed with the merged arguments, all derived quantities included; the same "
+             "override applied again changes nothing; derived quantities are consistent in every reachable state. Ownership "
+             "model (cells / instances): for every sequence of constructions and overrides, an override changes its own "
+             "component as dict.update does and no other component, construction touches nobody, the constructor's default "
+             "object never changes, so later default constructions get the declared default (storing the object itself is "
+             "refuted with a witness). Ties: constructor table T3 regenerated from the source (all constructors keep copies: "
+             "vm_compute over exactly that table), exact correspondence of the real classes. Behaviour under request "
+             "sequences, handler decoration and the remaining classes are reached by the twin / bystander monitor only. Two "
+             "recorded known findings (Node data_input_dict, deposition not enabled by override); three defects repaired.",
+        design="11/C15", tech="Coq proof (override algebra + ownership invariant by induction over operation lists) + generated finite table (vm_compute) + exact correspondence + constructed-twin / bystander monitor (partial)",
+        note=NOTE),
 }
 
 ALL = [f"C{n:02d}" for n in range(1, 21)]
